@@ -277,6 +277,37 @@ MUTATIONS = [
             # Raman effects are not computed: the pumps are not in the profile and generate no noise
             return zeros(spectral_info.number_of_channels)
 """, "")]},
+    {'id': 'c09-revert-round2float-step', 'props': ['C09'], 'tests': 'tests/test_network_functions.py tests/test_amplifier.py',
+     'desc': 'revert of fix 9b57a419: round2float rounds the step itself to one decimal (0.25 applied as 0.2)',
+     'edits': [('gnpy/core/utils.py', """    step = round(step, 2)
+    if step >= 0.01:
+        number = round(number / step, 0)
+        number = round(number * step, 2)
+""", """    step = round(step, 1)
+    if step >= 0.01:
+        number = round(number / step, 0)
+        number = round(number * step, 1)
+""")]},
+    {'id': 'c08-revert-fused-padding', 'props': ['C08'], 'tests': 'tests/test_network_functions.py tests/test_parser.py',
+     'desc': 'revert of fix 42917bec: a span ending with a fused element is never padded',
+     'edits': [('gnpy/core/network.py', """        if isinstance(next_node, elements.Fused) \\
+                and any(isinstance(n, elements.Fiber) for n in next_node_generator(network, fiber)):
+""", """        if isinstance(next_node, elements.Fused):
+""")]},
+    {'id': 'c12-revert-strict-on-short-path', 'props': ['C12'], 'tests': 'tests/test_disjunction.py',
+     'desc': 'revert of fix 9f1e09f0: constraints of synchronized requests tested on the short path representation',
+     'edits': [('gnpy/topology/request.py',
+                "                    if not ispart(allpaths[id(pth)].req.nodes_list, [e.uid for e in allpaths[id(pth)].pth]):",
+                "                    if not ispart(allpaths[id(pth)].req.nodes_list, pth):")]},
+    {'id': 'c13-revert-mode-own-offset', 'props': ['C13'], 'tests': 'tests/test_propagation.py tests/test_path_computation_functions.py',
+     'desc': 'partial revert of fix 066b2579: the path is propagated again only when the baud rate changes, not the offset',
+     'edits': [('gnpy/topology/request.py', "            if (this_br, this_offset) != propagated_baudrate_offset:",
+                "            if propagated_baudrate_offset is None or this_br != propagated_baudrate_offset[0]:")]},
+    {'id': 'c08-revert-split-lumped', 'props': ['C08'], 'tests': 'tests/test_network_functions.py tests/test_parser.py',
+     'desc': 'revert of fix 46db0731: every split span receives all lumped losses of the original fibre',
+     'edits': [('gnpy/core/network.py', """        params['att_in'] = new_att_in[span]
+        params['lumped_losses'] = new_lumped_losses[span]
+""", "")]},
     {'id': 'c11-revert-explicit-ispart', 'props': ['C11'], 'tests': 'tests/test_path_computation_functions.py tests/test_disjunction.py',
      'desc': 'revert of fix e50d35fe: explicit route returned without checking the listed nodes are crossed in order',
      'edits': [('gnpy/topology/request.py', "    if total_path is not None and ispart(nodes_list, total_path):",
